@@ -133,6 +133,16 @@ class Circuit:
                     "be converted to a unitary matrix."
                 )
 
+        if any(isinstance(matrix, sympy.MatrixBase) for matrix in lifted_matrices):
+            # mixing numpy and sympy factors: numpy scalars cannot be sympified by
+            # every supported sympy version, so convert the numeric factors first
+            lifted_matrices = [
+                matrix
+                if isinstance(matrix, sympy.MatrixBase)
+                else sympy.Matrix(matrix.tolist())
+                for matrix in lifted_matrices
+            ]
+
         if not lifted_matrices:
             # the empty product: a circuit without operations acts as the identity
             return np.eye(2**self.n_qubits, dtype=complex)
